@@ -2,6 +2,7 @@ CONSTANTS
  Mode = "judge"
  HistLen = 0
  LenientRelabel = FALSE
+ NeedGraph = FALSE
  RestartSets = {}
 INIT RInit
 NEXT RNext
